@@ -2,6 +2,11 @@ import Req.Driver.Proto
 import Req.Client.Compress
 import Req.Client.CompressLegacy
 import Req.Client.CompressReader
+import Req.Client.CompressAttempts
+import Req.Client.CompressFormats
+import Req.Client.CompressClose
+import Req.Client.CompressZstd
+import Req.Lemmas.C14Auto
 /-! Driver lanes of C14. -/
 namespace Req.Driver.L.C14
 open Req.Proto Req.Compress
@@ -57,6 +62,32 @@ def exchange (legacy : Bool) : List String → String
     | _, _, _, _, _, _, _, _, _ => "bad-op"
   | _ => "bad-op"
 
+
+/-- `c14seq <site> <dc> <auto> <method> <accept-encoding> <range> <hasBody> <header> <ContentLength>
+<wire> <gzip> <deflate> <br> <zstd> <k> <deliverAll>`: ONE request object attempted `k` times
+(transparent retries, or re-sent by the caller); every attempt is answered with the same
+response. Answer: per attempt what the origin saw and — for the delivered ones (all of them, or
+only the last) — what the caller received, then the `Accept-Encoding` left in the request's own
+header. The header state is threaded through `attempts`. -/
+def sequence : List String → String
+  | [site, dc, auto, method, ae, range, hasBody, hdr, cl, wire, gz, dfl, br, zs, k, all] =>
+    match parseSite site, parseBool dc, parseBool auto, decodeHex method, decodeHex ae,
+        decodeHex range, parseBool hasBody, (decodeList hdr).bind pairs, decodeInt cl, k.toNat?,
+        parseBool all with
+    | some s, some dc, some auto, some m, some ae, some rg, some hb, some h, some n, some k, some all =>
+      let h0 : Carried := ⟨ae, rg⟩
+      let run := attempts s dc m k h0
+      let r : Resp := ⟨h, n, false⟩
+      let isHead := (h0.cfg dc m).isHead
+      let render (i : Nat) (sent : Sent) : String :=
+        if all || i + 1 == k then
+          showOut sent.wireAE (processSent s sent auto isHead hb r) wire gz dfl br zs
+        else "ae=" ++ (match sent.wireAE with | some v => encodeHex v | none => "none")
+      let parts := (List.range run.1.length).zip run.1 |>.map fun p => render p.1 p.2
+      " ## ".intercalate parts ++ " ## carried=" ++ encodeHex run.2.acceptEncoding
+    | _, _, _, _, _, _, _, _, _, _, _ => "bad-op"
+  | _ => "bad-op"
+
 /-! ### reader scripts -/
 
 def parseTerm (s : String) : Option Term :=
@@ -69,15 +100,22 @@ def showRes (r : Bytes × Option Term) : String :=
 
 /-- Phase 1: read with the sizes in turn (cycling) until a read returns an error or `limit`
 reads were made. Returns state, data, end, reads made. -/
-def phase1 {S : Type} (read : S → Nat → S × Bytes × Option Term) (sizes : List Nat) :
-    Nat → Nat → S → Bytes → S × Bytes × Option Term
+def phase1R {S : Type} (read : S → Nat → S × Bytes × Option Term) (sizes : List Nat) :
+    Nat → Nat → S → List Bytes → S × List Bytes × Option Term
   | 0, _, s, acc => (s, acc, none)
   | fuel + 1, i, s, acc =>
     let n := sizes.getD (i % sizes.length) 1
     let r := read s n
     match r.2.2 with
-    | some t => (r.1, acc ++ r.2.1, some t)
-    | none => phase1 read sizes fuel (i + 1) r.1 (acc ++ r.2.1)
+    | some t => (r.1, r.2.1 :: acc, some t)
+    | none => phase1R read sizes fuel (i + 1) r.1 (r.2.1 :: acc)
+
+/-- (the pieces are collected in reverse and joined once: one-byte reads of a 100 KiB body would
+otherwise cost a quadratic number of list cells) -/
+def phase1 {S : Type} (read : S → Nat → S × Bytes × Option Term) (sizes : List Nat)
+    (fuel i : Nat) (s : S) (acc : Bytes) : S × Bytes × Option Term :=
+  let r := phase1R read sizes fuel i s []
+  (r.1, acc ++ r.2.1.reverse.flatten, r.2.2)
 
 def phase2 {S : Type} (read : S → Nat → S × Bytes × Option Term) :
     S → List Nat → List (Bytes × Option Term)
@@ -101,7 +139,8 @@ def laneReader : List String → String
           | none => .error (.err 99)
       let C := bufferedCodec openRes
       let src : Src := ⟨[], .eof⟩
-      let limit : Nat := if ca < 0 then out.length + 8 else ca.toNat
+      -- zero-length reads make no progress: allow a whole cycle of sizes per byte
+      let limit : Nat := if ca < 0 then (out.length + 8) * sizes.length else ca.toNat
       let render (data : Bytes) (t : Option Term) (after : List (Bytes × Option Term)) : String :=
         "data=" ++ (if ca > 0 then (if data.isPrefixOf out then "prefix" else "notprefix")
           else match t with
@@ -122,10 +161,101 @@ def laneReader : List String → String
     | _, _, _, _, _ => "bad-op"
   | _ => "bad-op"
 
+
+/-! ### container formats -/
+
+open Req.Compress.Fmt in
+/-- `c14enc gzip <ftext> <hcrc> <extra|-> <name|-> <comment|-> <mtime: 4 bytes> <xfl> <os> <blocks> <last>`
+→ the member; `c14enc deflate <blocks> <last>` → the stored-block stream;
+`c14enc zlib <blocks> <last>` → the same inside an RFC 1950 wrapper. Hex out. -/
+def laneEnc : List String → String
+  | ["gzip", ftext, hcrc, extra, name, comment, mtime, xfl, os, blocks, last] =>
+    let opt (s : String) : Option (Option Bytes) := if s == "-" then some none else (decodeHex s).map some
+    match parseBool ftext, parseBool hcrc, opt extra, opt name, opt comment, decodeHex mtime,
+        xfl.toNat?, os.toNat?, decodeList blocks, decodeHex last with
+    | some ft, some hc, some ex, some nm, some cm, some [m0, m1, m2, m3], some xfl, some os, some bl, some la =>
+      let h : GzHeader := ⟨ft, hc, ex, nm, cm, m0, m1, m2, m3, UInt8.ofNat xfl, UInt8.ofNat os⟩
+      encodeHex (gzMember ieee h bl la)
+    | _, _, _, _, _, _, _, _, _, _ => "bad-op"
+  | ["deflate", blocks, last] =>
+    match decodeList blocks, decodeHex last with
+    | some bl, some la => encodeHex (stored bl la)
+    | _, _ => "bad-op"
+  | ["zlib", blocks, last] =>
+    match decodeList blocks, decodeHex last with
+    | some bl, some la => encodeHex (zlibWrap (stored bl la) (adler32 (bl.flatten ++ la)))
+    | _, _ => "bad-op"
+  -- `c14enc zframe data <fhd> <wd> <fcs field bytes> <blocks> <last>` / `c14enc zframe skip <nibble> <payload>`
+  | ["zframe", "data", fhd, wd, fcs, blocks, last] =>
+    match fhd.toNat?, wd.toNat?, decodeHex fcs, decodeList blocks, decodeHex last with
+    | some fhd, some wd, some f, some bl, some la =>
+      encodeHex ((Req.Compress.Zstd.Frame.data (UInt8.ofNat fhd) (UInt8.ofNat wd) f bl la).bytes Req.Compress.Zstd.xxh)
+    | _, _, _, _, _ => "bad-op"
+  | ["zframe", "skip", nib, payload] =>
+    match nib.toNat?, decodeHex payload with
+    | some n, some p => encodeHex ((Req.Compress.Zstd.Frame.skippable (0x50 ||| (UInt8.ofNat n &&& 15)) p).bytes Req.Compress.Zstd.xxh)
+    | _, _ => "bad-op"
+  | _ => "bad-op"
+
+/-- Read the incremental reader of an automaton (`Auto.reader`: a `Read` consumes only the input
+it needs) with the given buffer sizes in turn until a `Read` reports the end. -/
+def drainAuto (A : Req.Compress.Auto) (wire : Bytes) (fin : Term) (sizes : List Nat) : Bytes × Term :=
+  let R := Req.Compress.Auto.reader A
+  let limit := (wire.length + 8) * sizes.length
+  let p := phase1 R.read sizes limit 0 ((A.init, wire, fin) : R.σ) []
+  (p.2.1, p.2.2.getD (.err 98))
+
+open Req.Compress.Fmt in
+/-- `c14dec <gzip|deflate|zstd> <wire> <fin> [<sizes>]` → `data=<hex> t=<end>`: what the reader of
+that coding delivers for a body `wire` that ends with `fin`; with `sizes` (gzip, deflate) the
+model's INCREMENTAL reader is read with those buffer sizes in turn (zero-length reads included)
+instead of taking the whole-input meaning — by `read_size_independent` the two agree;
+`unmodelled` when the stream leaves the modelled subset (a Huffman-coded / RLE / compressed block). -/
+def laneDec : List String → String
+  | fmt :: wire :: fin :: rest =>
+    match decodeHex wire, parseTerm fin with
+    | some w, some f =>
+      let sizes : List Nat := match rest with
+        | [s] => ((decodeNatList s).getD []).filter (fun _ => true)
+        | _ => []
+      let usable := !sizes.isEmpty && sizes.any (· > 0)
+      let r : Option (Bytes × Term) :=
+        if fmt == "gzip" then some (if usable then drainAuto (gzip ieee) w f sizes else (gzip ieee).mean f w gInit)
+        else if fmt == "deflate" then some (if usable then drainAuto deflate w f sizes else deflate.mean f w .hdr)
+        else if fmt == "zstd" then some (Req.Compress.Zstd.zmean Req.Compress.Zstd.xxh f w)
+        else none
+      match r with
+      | none => "bad-op"
+      | some (d, t) =>
+        if t == errUnmodelled then "unmodelled" else "data=" ++ encodeHex d ++ " t=" ++ t.show
+    | _, _ => "bad-op"
+  | _ => "bad-op"
+
+/-- `c14close <alg> <ops: r|c, comma separated>` → `body=<times the underlying Body.Close was
+called> waits=<did any Close wait for the body>` after the reads and closes, on a fresh wrapper. -/
+def laneClose : List String → String
+  | [alg, ops] =>
+    let a : Option Alg :=
+      if alg == "gzip" then some .gzip else if alg == "deflate" then some .deflate
+      else if alg == "br" then some .br else if alg == "zstd" then some .zstd else none
+    let os : Option (List HOp) := (if ops == "-" then [] else ops.splitOn ",").mapM fun o =>
+      if o == "r" then some HOp.read else if o == "c" then some HOp.close else none
+    match a, os with
+    | some a, some os =>
+      let waits := (List.range os.length).any fun i =>
+        os.getD i .read == .close && closeWaits a (runOps closeOf a .fresh (os.take i))
+      "body=" ++ toString (runOps closeOf a .fresh os).bodyCloses ++ " waits=" ++ (if waits then "1" else "0")
+    | _, _ => "bad-op"
+  | _ => "bad-op"
+
 def lanes : List (String × (List String → String)) := [
   ("c14select", laneSelect),
   ("c14x", exchange false),
   ("c14xlegacy", exchange true),
+  ("c14seq", sequence),
+  ("c14enc", laneEnc),
+  ("c14dec", laneDec),
+  ("c14close", laneClose),
   ("c14reader", laneReader)
 ]
 
